@@ -253,7 +253,7 @@ var plans = map[string]*Plan{
 			"handlers that contact other processes see loopback addresses that refuse connections at once, or the HTTP stubs of the scripted replicas",
 			"/debug/pprof/ and /metrics are net/http/pprof and promhttp code: only their index pages are requested (the profile endpoint blocks for its sampling time by design)",
 		},
-		Floor: map[string]int64{"requests": 2000, "route_state_combinations": 100},
+		Floor: map[string]int64{"requests": 2000, "route_state_combinations": 100, "status_agreement_cells": 100, "status_agreement_cells_engine_refused": 40},
 		Jobs: func(tier string) []Job {
 			return jobs("restfuzz", 16, tierN(tier, 60, 0), "workers=16,tier="+tier, time.Duration(tierN(tier, 15, 120))*time.Minute)
 		},
